@@ -3688,6 +3688,33 @@ func (r *JournalReader) Next() (err error) {
 		return io.EOF
 	}
 
+	// Only read sector and page size from first journal header.
+	if r.offset == 0 {
+		sectorSize := binary.BigEndian.Uint32(hdr[20:])
+
+		// Use page size from journal reader, if set to 0.
+		pageSize := binary.BigEndian.Uint32(hdr[24:])
+		if pageSize == 0 {
+			pageSize = r.pageSize
+		}
+
+		// Same validity rules as SQLite's readJournalHdr(): a header with an
+		// unusable sector or page size does not describe a journal.
+		if !isValidJournalSize(sectorSize, 32) || !isValidJournalSize(pageSize, 512) {
+			return io.EOF
+		}
+
+		// A brand new database has not learnt its page size yet (the process
+		// died during its first transaction); use the one in the journal.
+		if r.pageSize == 0 {
+			r.pageSize = pageSize
+		}
+		if pageSize != r.pageSize {
+			return fmt.Errorf("journal header page size (%d) does not match database (%d)", pageSize, r.pageSize)
+		}
+		r.sectorSize = sectorSize
+	}
+
 	// Read number of frames in journal segment. Set to -1 if no-sync was set
 	// and set to 0 if the journal was not sync'd. In these two cases we will
 	// calculate the frame count based on the journal size.
@@ -3701,20 +3728,6 @@ func (r *JournalReader) Next() (err error) {
 	// Read remaining fields from header.
 	r.nonce = binary.BigEndian.Uint32(hdr[12:])  // cksumInit
 	r.commit = binary.BigEndian.Uint32(hdr[16:]) // dbSize
-
-	// Only read sector and page size from first journal header.
-	if r.offset == 0 {
-		r.sectorSize = binary.BigEndian.Uint32(hdr[20:])
-
-		// Use page size from journal reader, if set to 0.
-		pageSize := binary.BigEndian.Uint32(hdr[24:])
-		if pageSize == 0 {
-			pageSize = r.pageSize
-		}
-		if pageSize != r.pageSize {
-			return fmt.Errorf("journal header page size (%d) does not match database (%d)", pageSize, r.pageSize)
-		}
-	}
 
 	// Exit if file doesn't have more than the initial sector.
 	if r.offset+int64(r.sectorSize) > r.fi.Size() {
@@ -3761,6 +3774,11 @@ func (r *JournalReader) ReadFrame() (pgno uint32, data []byte, err error) {
 	r.offset += int64(n)
 
 	return pgno, data, nil
+}
+
+// isValidJournalSize returns true if v is a power of two between min and 64KB.
+func isValidJournalSize(v, min uint32) bool {
+	return v >= min && v <= 65536 && v&(v-1) == 0
 }
 
 // journalHeaderOffset returns a sector-aligned offset.
